@@ -2,6 +2,7 @@ package main
 
 import (
 	"fmt"
+	"go/constant"
 	"go/token"
 	"go/types"
 	"sort"
@@ -71,6 +72,19 @@ func (ex *Exec) cutLoop(li *loopInfo, st *State) {
 		nv := vc.fresh("h."+a.Comment, old.sort)
 		st.locals[a] = nv
 		ex.assumeTypeInv(st, nv, a.Type().(*types.Pointer).Elem())
+		// syntactic monotonicity: a counter that the loop only ever increments (decrements) by constants
+		// never falls below (rises above) its value at loop entry. No obligation is needed: the fact follows
+		// from the shape of the stores (machine-integer wrap-around excluded, see the arithmetic assumption).
+		if old.sort == SInt {
+			switch ex.monotoneCounter(li, a) {
+			case 1:
+				vc.assume(st.guard, Ge(nv, old))
+				vc.note("loop %d of %s: counter %s only incremented (automatic bound)", li.ordinal, ex.conName(), a.Comment)
+			case -1:
+				vc.assume(st.guard, Le(nv, old))
+				vc.note("loop %d of %s: counter %s only decremented (automatic bound)", li.ordinal, ex.conName(), a.Comment)
+			}
+		}
 	}
 	var hs []string
 	for h := range ms.heaps {
@@ -247,4 +261,65 @@ func (ex *Exec) frameCond(h string, q T) (T, bool) {
 		}
 	}
 	return cond, true
+}
+
+// monotoneCounter reports +1 when every store to the local cell a inside the loop has the shape a = a + c with a
+// constant c >= 0 (or a = a - c, c <= 0), -1 for the mirror image, 0 otherwise. Cells whose address escapes
+// (captured by closures) are never classified.
+func (ex *Exec) monotoneCounter(li *loopInfo, a *ssa.Alloc) int {
+	if refs := a.Referrers(); refs != nil {
+		for _, r := range *refs {
+			switch r := r.(type) {
+			case *ssa.Store:
+				if r.Addr != a {
+					return 0
+				}
+			case *ssa.UnOp, *ssa.DebugRef:
+			default:
+				return 0
+			}
+		}
+	}
+	dir := 0
+	for b := range li.blocks {
+		for _, in := range b.Instrs {
+			st, ok := in.(*ssa.Store)
+			if !ok || st.Addr != a {
+				continue
+			}
+			bo, ok := st.Val.(*ssa.BinOp)
+			if !ok || (bo.Op != token.ADD && bo.Op != token.SUB) {
+				return 0
+			}
+			ld, ok := bo.X.(*ssa.UnOp)
+			if !ok || ld.Op != token.MUL || ld.X != a {
+				return 0
+			}
+			c, ok := bo.Y.(*ssa.Const)
+			if !ok || c.Value == nil {
+				return 0
+			}
+			n, exact := constant.Int64Val(constant.ToInt(c.Value))
+			if !exact {
+				return 0
+			}
+			if bo.Op == token.SUB {
+				n = -n
+			}
+			d := 0
+			switch {
+			case n > 0:
+				d = 1
+			case n < 0:
+				d = -1
+			default:
+				continue
+			}
+			if dir != 0 && dir != d {
+				return 0
+			}
+			dir = d
+		}
+	}
+	return dir
 }
